@@ -211,7 +211,8 @@ SPEC["C01"] = {
        test, an unknown name, a string), an argument list the specification refuses (wrong type, wrong order,
        unknown tag, surplus argument, bad value of a tag's parameter: legal = LReject) at a token of one of
        the arguments, '{' after a command that takes no block, a command name where ';' is missing; `elsif` / `else` after a
-       command they may not follow (at the closing brace);
+       command they may not follow (at the closing brace); malformed string lists in the arguments of an action,
+       an empty test list, the end of the text with a block open or a command unfinished;
    The converse (soundness of acceptance with respect to the RFC 5228 generic grammar) is NOT proved in
    general: the rejection classes above and the structural theorem C01_accept_final_state are, and the executable oracle
    harness/sieve_spec.py (generic grammar + frozen signatures) is compared with the implementation on the
@@ -265,10 +266,22 @@ SPEC["C01"] = {
          "a block after a command that takes none; a command name where ';' is missing"),
         ("C01_misplaced_follower_rejected", "RejectFacts.misplaced_follower_rejected",
          "`elsif <test> { .. }` / `else { .. }` whose previous command is not one they may follow (or that start a block): rejected at the closing brace"),
+        ("C01_args_run", "RejectFacts.args_run",
+         "legal arguments of an action leave the machine at that command (the positive counterpart of C01_args_stop)"),
+        ("C01_malformed_string_list_rejected", "RejectFacts.malformed_string_list_rejected",
+         "in the arguments of an action: an empty string list, a missing comma, a comma before the closing bracket, a list that is not closed -- rejected at the token that cannot continue the list"),
+        ("C01_empty_test_list_rejected", "RejectFacts.empty_test_list_rejected",
+         "after `if anyof (` anything but the name of a test (an empty test list, a string): rejected at that token"),
+        ("C01_unclosed_block_rejected", "RejectFacts.unclosed_block_rejected",
+         "the text ends while blocks are open: rejected at the end of the text"),
+        ("C01_unfinished_command_rejected", "RejectFacts.unfinished_command_rejected",
+         "the text ends inside a command (missing semicolon): rejected at the end of the text"),
+        ("C01_malformed_list_examples", "RejectExamples.ex_missing_comma",
+         "non-vacuity: `require [\"fileinto\" \"envelope\"];` rejected at the second string (with ex_empty_list, ex_trailing_comma, ex_empty_test_list, ex_unclosed_block, ex_unfinished_command)"),
         ("C01_misplaced_else_example", "RejectExamples.ex_misplaced_else",
          "non-vacuity: `stop; else { stop; } keep;` rejected with 'must follow' at the closing brace, from the theorem"),
         ("C01_reject_examples", "RejectExamples.ex_unknown",
-         "non-vacuity on the generated tables (one of twelve examples in sieve/RejectExamples.v: prefix `require [\"fileinto\"]; if size :over 100K {`)"),
+         "non-vacuity on the generated tables (one of eighteen examples in sieve/RejectExamples.v: prefix `require [\"fileinto\"]; if size :over 100K {`)"),
         ("C01_accept_final_state", "GateFacts.parse_accept_reachable",
          "an accepted script ends with an empty command stack, balanced brackets and nothing expected"),
         ("raw", """(* which commands of the current tables the interpreter theorem covers (re-checked on every run) *)
